@@ -7,10 +7,14 @@
 // antisymmetry on pairs, transitivity on triples, Cmp==0 => identical data (the harness' own dump,
 // floats as bit patterns), copy/clone equality, copy independence, frozen values reject mutation.
 //
-// Generators are split so that the known float defects cannot mask anything else: every type is
+// Generators are split so that float-specific defects cannot mask anything else: every type is
 // exercised with "plain" floats (no NaN, no -0), where any failure gets a fresh signature, and a
 // selection of types additionally with all float classes, where failures explained by NaN / -0
-// get the signatures float64compare-nan, cmp-<Type>-nan-field, ...
+// get the signatures float64compare-nan, cmp-<Type>-nan-field, ... Those signatures name the
+// defects of pkg.Float64Compare/Float64Equal that /repo commit 05846e0 repaired, and
+// copy-negzero-not-copied the `!=` guards of the generated setters that 59db810 replaced by
+// pkg.<T>Equal; they all stay as oracles (a regression is reported under the same name, which is
+// no longer a known finding).
 package main
 
 import (
@@ -462,21 +466,19 @@ func checkCopyInto(pc *poolCtx, i int, src reflect.Value, sst, sda string, dst r
 
 func verifyEqualCopy(pc *poolCtx, op string, src reflect.Value, sst, sda string, cp reflect.Value, cst, cda string) {
 	t := pc.t
-	lostPresence := false
 	if cda != sda {
+		// the copy does not hold the source's data; IsEqual=false / Cmp!=0 are then consequences
 		sig := op + "-" + t.name + "-not-equal"
 		switch {
 		case op == "clone" && t.hasOpt && topLevelOptionalPresent(src, t) && !topLevelOptionalPresent(cp, t):
 			sig = "clone-loses-optional-presence"
-			lostPresence = true
 		case pc.fm == fSpecial && normZero(cda) == normZero(sda):
 			sig = "copy-negzero-not-copied"
 		}
 		propFail(sig, "%s of %s does not hold the source's data: source=%s copy=%s", op, t.name, sda, cda)
-	}
-	if lostPresence {
 		return
 	}
+	// same data: IsEqual must hold and Cmp must be 0
 	eq, res := isEqualObj(cp, src)
 	if res.panicked {
 		propFail("panic-isequal-"+t.name, "IsEqual(copy,src) panicked: %s", res.msg)
@@ -485,19 +487,17 @@ func verifyEqualCopy(pc *poolCtx, op string, src reflect.Value, sst, sda string,
 		if nan, _, _ := floatsIn(sda); nan && pc.fm == fSpecial {
 			sig = "copy-nan-not-isequal"
 		}
-		propFail(sig, "%s of %s: IsEqual(copy, source)=false: source=%s copy=%s", op, t.name, sda, cda)
+		propFail(sig, "%s of %s holds the same data but IsEqual(copy, source)=false: source=%s copy=%s", op, t.name, sda, cda)
 	}
 	c, res := cmpObj(t, cp, src)
 	if res.panicked {
 		propFail("panic-cmp-"+t.name, "Cmp(copy,src) panicked: %s", res.msg)
 	} else if c != 0 {
 		sig := op + "-" + t.name + "-cmp-nonzero"
-		if cda == sda && cst != sst {
+		if cst != sst {
 			sig = "cmp-stale-optional"
-		} else if pc.fm == fSpecial && normZero(cda) == normZero(sda) && cda != sda {
-			sig = "copy-negzero-not-copied"
 		}
-		propFail(sig, "%s of %s: Cmp(copy, source)=%d: source=%s copy=%s", op, t.name, c, sst, cst)
+		propFail(sig, "%s of %s holds the same data but Cmp(copy, source)=%d: source=%s copy=%s", op, t.name, c, sst, cst)
 	}
 }
 
@@ -698,7 +698,9 @@ func historySection() {
 
 // Directed witnesses of the float defects, per type: the same value built five times with every
 // float leaf set to +0, -0, NaN, 1.0, 2.0. Cmp(+0 version, -0 version) = 0 with different data and
-// 2.0 <= NaN <= 1.0 but 2.0 > 1.0 are the known findings cmp-<Type>-negzero-field / -nan-field.
+// 2.0 <= NaN <= 1.0 but 2.0 > 1.0 were the findings cmp-<Type>-negzero-field / -nan-field (repaired
+// by 05846e0; evaluated on every run as regression oracles). CopyFrom of the -0 version into the
+// +0 version was the finding copy-negzero-not-copied (repaired by 59db810; same treatment).
 func directedSection() {
 	names := make([]string, 0, len(specialTypes))
 	for n := range specialTypes {
@@ -711,7 +713,9 @@ func directedSection() {
 		var objs []reflect.Value
 		var st, da []string
 		found := false
+		foundSeed := uint64(0)
 		for seed := uint64(0); seed < 200 && !found; seed++ {
+			foundSeed = seed
 			objs, st, da = nil, nil, nil
 			for i := range pats {
 				cfg := &genCfg{fm: fPlain, maxDepth: 2, maxLen: 2, f64: &pats[i]}
@@ -753,6 +757,31 @@ func directedSection() {
 			emit("eq "+st[0]+" "+st[1], fmt.Sprint(e))
 			if e && da[0] != da[1] {
 				propFail("isequal-negzero-field", "%s.IsEqual=true but a holds +0.0 where b holds -0.0: a=%s b=%s", name, da[0], da[1])
+			}
+		}
+		// CopyFrom(-0 version) into a freshly built +0 version
+		{
+			mk := func(i int) reflect.Value {
+				cfg := &genCfg{fm: fPlain, maxDepth: 2, maxLen: 2, f64: &pats[i]}
+				p := newObj(t)
+				fill(p, t, rng.New(rng.Seed()*977+foundSeed), cfg, 0)
+				return p
+			}
+			if hasMethod(t, "CopyFrom") {
+				d, src := mk(0), mk(1)
+				d0 := stateOf(d, t)
+				if res := copyFromObj(d, src); res.panicked {
+					propFail("panic-copyfrom-"+name, "%s.CopyFrom panicked: %s", name, res.msg)
+				} else {
+					emit("copy "+d0+" "+st[1], stateOf(d, t))
+					if a, b := dataOf(d, t), da[1]; a != b {
+						sig := "copy-" + name + "-not-equal"
+						if normZero(a) == normZero(b) {
+							sig = "copy-negzero-not-copied"
+						}
+						propFail(sig, "%s: dst holding +0.0 after CopyFrom(src holding -0.0): dst=%s src=%s", name, a, b)
+					}
+				}
 			}
 		}
 		if e, res := isEqualObj(objs[2], objs[2]); !res.panicked {
